@@ -29,25 +29,28 @@ let () = iter_lines (fun line ->
   | ["nx"; kind; i; bc; p] ->
     let f = if kind = "o2" then Gen_Open2N2.coq_GetNextBucketIndex else Gen_Open8.coq_GetNextBucketIndex in
     print_endline (string_of_z (f (z_of_string i) (z_of_string bc) (z_of_string p)))
-  | "bops" :: "o2" :: _ :: _ :: toks ->
+  | "bops" :: "o2" :: mcs :: _ :: toks ->
+    let mc = z_of_string mcs in let mci = int_of_string mcs in
     (* one BucketOpen2N2<3> bucket: generated AddCrt / Remove / UpdateMaxProbe / Clear; dump all bookkeeping bytes *)
     let zf = (fun _ -> z_of_int 0) in
-    let (m0, s0) = Gen_Open2N2_ops.pvSetEmpty zf zf zf in
+    let (m0, s0) = Gen_Open2N2_ops.pvSetEmpty mc zf zf zf in
     let st = ref (m0, s0, zf) in let bad = ref "" in
     Stdlib.List.iter (fun tok -> if !bad = "" then begin
       let (m, s, h) = !st in
       let f = Stdlib.List.map z_of_string (Stdlib.List.tl (String.split_on_char ':' tok)) in
       match tok.[0], f with
-      | 'A', [hc; lbc; pr] -> (match Gen_Open2N2_ops.coq_AddCrt m s h hc lbc pr (z_of_int 0) with
+      | 'A', [hc; lbc; pr] -> (match Gen_Open2N2_ops.coq_AddCrt mc m s h hc lbc pr (z_of_int 0) with
           | Ok (((_, m'), s'), h') -> st := (m', s', h') | _ -> bad := "stuck")
-      | 'R', [j] -> (match Gen_Open2N2_ops.coq_Remove m s h (z_of_int (2 - int_of_z j)) with
+      | 'R', [j] -> (match Gen_Open2N2_ops.coq_Remove mc m s h (z_of_int (mci - 1 - int_of_z j)) with
           | Ok (((_, m'), s'), h') -> st := (m', s', h') | _ -> bad := "stuck")
       | 'U', [p] -> (match Gen_Open2N2_ops.coq_UpdateMaxProbe m s h p with Ok (_, m') -> st := (m', s, h) | _ -> bad := "stuck")
-      | _ -> let (m', s') = Gen_Open2N2_ops.coq_Clear m s h in st := (m', s', h) end) toks;
+      | _ -> let (m', s') = Gen_Open2N2_ops.coq_Clear mc m s h in st := (m', s', h) end) toks;
     if !bad <> "" then print_endline !bad else begin
       let (m, s, h) = !st in let g f i = string_of_z (f (z_of_int i)) in
-      Printf.printf "%s %s %s %s %s %s %s %s %s %s\n" (g m 0) (g m 1) (g s 0) (g s 1) (g s 2) (g h 0) (g h 1) (g h 2)
-        (string_of_z (Gen_Open2N2_ops.pvGetCount m s h)) (string_of_z (Gen_Open2N2_ops.pvGetMaxProbe m s h)) end
+      Printf.printf "%s %s " (g m 0) (g m 1);
+      for i = 0 to mci - 1 do Printf.printf "%s " (g s i) done;
+      for i = 0 to mci - 1 do Printf.printf "%s " (g h i) done;
+      Printf.printf "%s %s\n" (string_of_z (Gen_Open2N2_ops.pvGetCount m s h)) (string_of_z (Gen_Open2N2_ops.pvGetMaxProbe m s h)) end
   | "bops" :: (("n1" | "n1f") as knd) :: mcs :: l :: toks ->
     let mc = z_of_string mcs in let rv = (knd = "n1") in
     let st = ref (Gen_OpenN1_ops.pvSetEmpty mc (fun _ -> z_of_int 0)) in let bad = ref "" in
@@ -88,13 +91,13 @@ let () = iter_lines (fun line ->
     let z0 = z_of_int 0 in
     if kind = "o2" || kind = "o2f" then begin
       let st = Stdlib.List.fold_left (fun s (a, k, _) ->
-        if a then (match OpenInstances.o2_add nz h s k (((hcode k, nz), z0), z0) with
+        if a then (match OpenInstances.o2_add (z_of_int 3) nz h s k (((hcode k, nz), z0), z0) with
           | Some s' -> Hashtbl.replace present (string_of_z k) k; Hashtbl.remove removed (string_of_z k); s' | None -> full := true; s)
         else (let b = locate (OpenTable.bk s) k in
           if b < 0 then s else begin
             Hashtbl.remove present (string_of_z k); Hashtbl.replace removed (string_of_z k) k;
             let len = Stdlib.List.length (OpenTable.bk s (z_of_int b)) in
-            OpenTable.remove BucketOps.O2.remP s (z_of_int b) k (((z_of_int (3 - len), z0), z0), z0) end)) OpenInstances.o2_empty ops in
+            OpenTable.remove (BucketOps.O2.remP (z_of_int 3)) s (z_of_int b) k (((z_of_int (3 - len), z0), z0), z0) end)) (OpenInstances.o2_empty (z_of_int 3)) ops in
       let ok = Hashtbl.fold (fun _ k acc -> acc && OpenInstances.o2_find nz h st k) present true
             && Hashtbl.fold (fun _ k acc -> acc && not (OpenInstances.o2_find nz h st k)) removed true in
       Printf.printf "%s found=%b full=%b badfull=false\n"
